@@ -56,10 +56,11 @@ Definition hav_a (lon1 lat1 lon2 lat2 : R) : R :=
   sin ((lat2 - lat1) / 2) * sin ((lat2 - lat1) / 2)
   + cos lat1 * cos lat2 * (sin ((lon2 - lon1) / 2) * sin ((lon2 - lon1) / 2)).
 
-(* haversine_distance_meters without the un-wrapping step *)
+(* haversine_distance_meters without the un-wrapping step (the `max(0., 1 - var1)` is the D28
+   repair: in floats var1 can exceed 1 by an ulp near the antipode; over R it never acts) *)
 Definition hdist_raw (c1 c2 : coord) : R :=
   let a := hav_a (rad (lon c1)) (rad (lat c1)) (rad (lon c2)) (rad (lat c2)) in
-  Rearth * 2 * atan2 (sqrt a) (sqrt (1 - a)).
+  Rearth * 2 * atan2 (sqrt a) (sqrt (Rmax 0 (1 - a))).
 
 (* calc.haversine_distance_meters *)
 Definition hdist (c1 c2 : coord) : R :=
